@@ -21,9 +21,9 @@
     Which inventory entries (gen/C15_inventory.json, printed in the evidence) have such a theorem and
     which are covered by correspondence + judge only is listed at the end of this file. *)
 From Coq Require Import ZArith List Bool String.
-From V Require Import Base.Int Base.IO Spec.Gregorian Model.Strftime Proofs.C15 Proofs.C15Owners Proofs.C15Strftime Proofs.C15Wide Proofs.C15Text Proofs.C15Utf8 Proofs.C15SfItems Proofs.C15Deep.
+From V Require Import Base.Int Base.IO Spec.Gregorian Model.Strftime Proofs.C15 Proofs.C15Owners Proofs.C15Strftime Proofs.C15Wide Proofs.C15Text Proofs.C15Utf8 Proofs.C15SfItems Proofs.C15Deep Proofs.C15Format.
 From V Require Model.Date Model.Time Model.DateTime Model.TimeDelta Model.DateExtra Model.Parsed Model.Parse Model.Rfc3339 Model.Show Model.Round Model.C02 Model.C15 Model.C19 Gen.Strftime
-               Base.Utf8 Model.Scan Model.FromStr Model.Rfc2822 Proofs.C13Total Proofs.C13Time Proofs.C14.
+               Base.Utf8 Model.Scan Model.FromStr Model.Rfc2822 Model.Format Proofs.C12 Proofs.C13Total Proofs.C13Time Proofs.C14.
 Import ListNotations.
 Open Scope Z_scope.
 
@@ -626,6 +626,32 @@ Theorem C15_to_rfc3339_opts_total_partial : forall y o secs frac off sf uz a,
 Proof. exact to_rfc3339_opts_total_partial. Qed.
 Print Assumptions C15_to_rfc3339_opts_total_partial.
 
+(** ** DelayedFormat never traps (Proofs/C15Format.v): EVERY item -- every Numeric with every Pad, every Fixed incl. the internal ones and the RFC 2822 / RFC 3339 items, literals, the Error item -- on EVERY value of the five kinds (NaiveDate, NaiveTime, NaiveDateTime, DateTime<FixedOffset> with any offset and the wall-clock day one day outside the date range, DateTime<Utc>): the text, or fmt::Error by value (an item the value has no field for; a year outside 0..=9999 under the RFC 2822 item; the Error item).  Hence write_to / Display over arbitrary item lists and over StrftimeItems (strict or lenient) of every format string.  What the text IS on the documented family: C12_format_spec_family *)
+(* one item; [Proofs.C12.args_view a sv]: the formatter arguments denote a value (C12_args_view_date .. C12_args_view_dtz_all: every value has such a view) *)
+Theorem C15_format_item_never_traps : forall a sv it, 
+  Proofs.C12.args_view a sv -> returns (Model.Format.format_item a it).
+Proof. exact format_item_never_traps. Qed.
+Print Assumptions C15_format_item_never_traps.
+(* DelayedFormat::write_to / Display over an arbitrary item list (format_with_items), the five kinds of value *)
+Theorem C15_delayed_format_items_total : forall items, 
+  (forall d, date_valid d -> returns (Model.Format.write_items (Model.Format.fa_of_date d) items [])) /\
+  (forall t, time_valid t -> returns (Model.Format.write_items (Model.Format.fa_of_time t) items [])) /\
+  (forall n, Proofs.C04.ndt_ok n -> returns (Model.Format.write_items (Model.Format.fa_of_ndt n) items [])) /\
+  (forall z, Proofs.C04.dtz_ok z -> exists a, Model.Format.fa_of_dtz z = Val a /\ returns (Model.Format.write_items a items [])) /\
+  (forall n, Proofs.C04.ndt_ok n -> exists a, Model.Format.fa_of_utc n = Val a /\ returns (Model.Format.write_items a items [])).
+Proof. exact delayed_format_items_total. Qed.
+Print Assumptions C15_delayed_format_items_total.
+(* DelayedFormat<StrftimeItems>: every format string, strict (repaired error()) or lenient (op c15.writeto, sf.fmt, sf.fmtl) *)
+Theorem C15_delayed_format_strftime_total : forall fmt lenient, 
+  Base.Utf8.utf8_valid fmt = true -> Base.Utf8.blen fmt <= u64_max -> Gen.Strftime.SF_ERROR_CONSUMES = true \/ lenient = true ->
+  (forall d, date_valid d -> returns (Model.Format.delayed_display (Model.Format.fa_of_date d) (Model.Strftime.mk_sfi fmt [] lenient))) /\
+  (forall t, time_valid t -> returns (Model.Format.delayed_display (Model.Format.fa_of_time t) (Model.Strftime.mk_sfi fmt [] lenient))) /\
+  (forall n, Proofs.C04.ndt_ok n -> returns (Model.Format.delayed_display (Model.Format.fa_of_ndt n) (Model.Strftime.mk_sfi fmt [] lenient))) /\
+  (forall z, Proofs.C04.dtz_ok z -> exists a, Model.Format.fa_of_dtz z = Val a /\ returns (Model.Format.delayed_display a (Model.Strftime.mk_sfi fmt [] lenient))) /\
+  (forall n, Proofs.C04.ndt_ok n -> exists a, Model.Format.fa_of_utc n = Val a /\ returns (Model.Format.delayed_display a (Model.Strftime.mk_sfi fmt [] lenient))).
+Proof. exact delayed_format_strftime_total. Qed.
+Print Assumptions C15_delayed_format_strftime_total.
+
 (** ** Debug / Display of values never trap (to_string() / format!("{:?}") panic on a writer error: there is none): every valid NaiveDate, NaiveTime, NaiveDateTime (leap-second fractions included), every FixedOffset (seconds included), Utc, and every well-formed DateTime<Tz> ([utc] = true: Tz = Utc) -- wall clock in the one-day headroom included.  What the text IS: C09's shape theorems (C09_shape_date ...) on their domain *)
 Theorem C15_show_date_total : forall d, 
   date_valid d -> returns (Model.Show.to_text (Model.Show.date_debug [] d)) /\ returns (Model.Show.to_text (Model.Show.date_display [] d)).
@@ -751,6 +777,10 @@ Print Assumptions C15_deep_hypotheses_inhabited.
        <DateTime<FixedOffset> as str::FromStr>::from_str;
      C15_datetime_utc_from_str_total
        <DateTime<Utc> as str::FromStr>::from_str;
+     C15_delayed_format_items_total
+       DelayedFormat<I>::write_to;
+     C15_delayed_format_strftime_total
+       <DelayedFormat<I> as Display>::fmt;
      C15_dt_parse_and_remainder_total
        DateTime<FixedOffset>::parse_and_remainder;
      C15_dt_parse_from_str_total
@@ -990,8 +1020,6 @@ Print Assumptions C15_deep_hypotheses_inhabited.
        serde::ts_microseconds::serialize#2; serde::ts_milliseconds::serialize#2; serde::ts_seconds::serialize#2;
 
    correspondence + judge ONLY:
-     none: C12_format_spec covers the documented family; C15_strftime_never_panics covers the item iterator; formatting of arbitrary items: correspondence + judge
-       DelayedFormat<I>::write_to; <DelayedFormat<I> as Display>::fmt;
      none: outside C15 stream
        <ParseError as fmt::Display>::fmt; <OutOfRange as fmt::Display>::fmt; <OutOfRange as fmt::Debug>::fmt;
        <ParseMonthError as fmt::Display>::fmt; <ParseMonthError as fmt::Debug>::fmt;
